@@ -92,7 +92,7 @@ def loop (e : Enc) (data : Option Bytes) (no : BitVec 32) : Nat â†’ BitVec 32 â†
   | f + 1, i, p =>
     if vr_loop_cond i no then do
       let p' â† step e data p.1
-      loop e data no f (i + 1) p'
+      loop e data no f (vr_i_incr i) p'
     else pure p
 
 /-- `get_entry(no, â€¦)`; `num` = cached DT_VERNEEDNUM, `str` = `sections[get_link()]` -/
@@ -100,7 +100,7 @@ def getEntry (e : Enc) (b : SecBuf) (str : Option SecBuf) (num no : BitVec 32) :
   if vr_guard true no num then pure none else do
     let data := b.getData.data
     let ax â† rd32 "verneed/vn_aux" data Elfxx_Verneed.vn_aux_off
-    let (vn, va) â† loop e data no (no.toNat + 1) 0 (0, (vr_aux_off0 (cv32 e) (verneed_vn_aux := ax)).toNat)
+    let (vn, va) â† loop e data no (no.toNat + 1) vr_i_init (0, (vr_aux_off0 (cv32 e) (verneed_vn_aux := ax)).toNat)
     let version â† rd16 "verneed/vn_version" data (vn + Elfxx_Verneed.vn_version_off)
     let fidx â† rd32 "verneed/vn_file" data (vn + Elfxx_Verneed.vn_file_off)
     let file â† strAssign "verneed/file_name" str (vr_file_idx (cv32 e) (verneed_vn_file := fidx))
@@ -134,14 +134,14 @@ def loop (e : Enc) (data : Option Bytes) (no : BitVec 32) : Nat â†’ BitVec 32 â†
   | f + 1, i, p =>
     if vd_loop_cond i no then do
       let p' â† step e data p.1
-      loop e data no f (i + 1) p'
+      loop e data no f (vd_i_incr i) p'
     else pure p
 
 def getEntry (e : Enc) (b : SecBuf) (str : Option SecBuf) (num no : BitVec 32) : M (Option View) :=
   if vd_guard true no num then pure none else do
     let data := b.getData.data
     let ax â† rd32 "verdef/vd_aux" data Elfxx_Verdef.vd_aux_off
-    let (vd, va) â† loop e data no (no.toNat + 1) 0 (0, (vd_aux_off0 (cv32 e) (verdef_vd_aux := ax)).toNat)
+    let (vd, va) â† loop e data no (no.toNat + 1) vd_i_init (0, (vd_aux_off0 (cv32 e) (verdef_vd_aux := ax)).toNat)
     let flags â† rd16 "verdef/vd_flags" data (vd + Elfxx_Verdef.vd_flags_off)
     let ndx â† rd16 "verdef/vd_ndx" data (vd + Elfxx_Verdef.vd_ndx_off)
     let hash â† rd32 "verdef/vd_hash" data (vd + Elfxx_Verdef.vd_hash_off)
